@@ -242,6 +242,31 @@ func ruleC14(c *Ctx) {
 	// validator side: every entry compared; only a zero first output is skipped
 	crc := c.Func(pVal, "checkoutRewardCoinbase")
 	if crc != nil {
+		// every entry of the reward table is examined: a loop ranges over checkpoint.Rewards and can fail
+		// from inside (a check driven only by the outputs cannot notice an entry nobody was paid for)
+		okr, dr := false, "no range over Checkpoint.Rewards"
+		for _, b := range crc.Blocks {
+			for _, in := range b.Instrs {
+				rg, isR := in.(*ssa.Range)
+				if !isR || !mentions(rg.X, readsField("protocol/state.Checkpoint", "Rewards"), 3, nil) {
+					continue
+				}
+				dr = "the loop over Checkpoint.Rewards has no failing exit"
+				ee := earlyExits(crc)
+				for _, ri := range returnsOf(crc) {
+					h := ee[ri.Ret]
+					if ri.Success || h == nil {
+						continue
+					}
+					for _, r := range *rg.Referrers() {
+						if nx, isN := r.(*ssa.Next); isN && nx.Block() == h {
+							okr, dr = true, "range over Checkpoint.Rewards with a failing exit"
+						}
+					}
+				}
+			}
+		}
+		c.Require("loopshape", fname(crc)+": every reward entry is examined", okr, "%s", dr)
 		nmu := 0
 		for _, b := range crc.Blocks {
 			for _, in := range b.Instrs {
@@ -349,16 +374,16 @@ func lenCapped(s ssa.Value, max string) bool {
 func ruleC15(c *Ctx) {
 	c.Explain("C15 (structural part): map-iteration order independence + comparator totality + cap/fallback facts. Decided: every `range` over a map in protocol/state, protocol/validation, protocol/casper and proposal is in the reviewed table with its reason (commutative body, sorted afterwards, unique-key search, order not a consensus rule); AllValidators builds its slice in map order but sorts it with a comparator that falls through to the unique public key and compares element i with element j on every branch (strict, total); only keys with at least the minimum vote count qualify; EffectiveValidators assigns Order from the sorted index, stops at MaxNumOfValidators and falls back to the federation when nobody qualifies; GetValidator returns the validator whose Order equals the computed slot. Not decided: the slot arithmetic for all timestamps (value-level).")
 	table := map[string]string{
-		"protocol/state.*Checkpoint.AllValidators":           "appends in map order, then sort.Slice with a total comparator (checked below)",
-		"protocol/state.*Checkpoint.GetValidator":            "search for the unique Order value; at most one match",
-		"protocol/state.*Checkpoint.pledgeRate":              "sum: commutative",
-		"protocol/state.NewCheckpoint":                       "copy into a fresh map keyed by the iteration key: commutative",
-		"protocol/validation.checkoutRewardCoinbase":         "per-key comparison; any mismatch fails: order-independent",
-		"protocol/casper.supLinkToVerifications":             "every element is processed; later effects are per-validator slot and idempotent",
-		"protocol/casper.*Casper.authVerificationLoop":       "replays cached votes per validator key; each is verified independently",
-		"protocol/casper.*Casper.saveCheckpoints":            "set → slice for one atomic batch: order irrelevant",
-		"proposal.*blockBuilder.createCoinbaseTx":            "coinbase output order is not a consensus rule: the validator compares by program",
-		"protocol/validation.checkValid":                     "per-asset parity check: each key is tested on its own (BTM → setGas once, any other non-zero fails); only which error is reported first can vary",
+		"protocol/state.*Checkpoint.AllValidators":     "appends in map order, then sort.Slice with a total comparator (checked below)",
+		"protocol/state.*Checkpoint.GetValidator":      "search for the unique Order value; at most one match",
+		"protocol/state.*Checkpoint.pledgeRate":        "sum: commutative",
+		"protocol/state.NewCheckpoint":                 "copy into a fresh map keyed by the iteration key: commutative",
+		"protocol/validation.checkoutRewardCoinbase":   "per-key comparison; any mismatch fails: order-independent",
+		"protocol/casper.supLinkToVerifications":       "every element is processed; later effects are per-validator slot and idempotent",
+		"protocol/casper.*Casper.authVerificationLoop": "replays cached votes per validator key; each is verified independently",
+		"protocol/casper.*Casper.saveCheckpoints":      "set → slice for one atomic batch: order irrelevant",
+		"proposal.*blockBuilder.createCoinbaseTx":      "coinbase output order is not a consensus rule: the validator compares by program",
+		"protocol/validation.checkValid":               "per-asset parity check: each key is tested on its own (BTM → setGas once, any other non-zero fails); only which error is reported first can vary",
 	}
 	got := c.mapRangeFuncs(pState, pVal, pCasper, "proposal")
 	var names []string
@@ -535,7 +560,10 @@ func ruleC38(c *Ctx) {
 			}
 			c.Require("sibling", fname(nb)+": "+what, ok, "store to BlockHeader.%s", field)
 		}
-		chk("Version", func(v ssa.Value) bool { k, ok := v.(*ssa.Const); return ok && k.Value != nil && k.Value.ExactString() == "1" }, "Version = 1 (validator rejects anything else)")
+		chk("Version", func(v ssa.Value) bool {
+			k, ok := v.(*ssa.Const)
+			return ok && k.Value != nil && k.Value.ExactString() == "1"
+		}, "Version = 1 (validator rejects anything else)")
 		chk("Height", func(v ssa.Value) bool {
 			bo, ok := v.(*ssa.BinOp)
 			if !ok || bo.Op.String() != "+" {
@@ -612,7 +640,10 @@ func ruleC38(c *Ctx) {
 		c.Require("facts", fname(pv)+": a transaction is reported usable only after it was applied to the view", oka, "%s (%d success result literal(s))", dSucc, nSucc)
 		okc := false
 		for _, s := range callsTo(pv, false, pVal+".ValidateTxs") {
-			okc = mentions(s.Common().Args[2], func(v ssa.Value) bool { f, ok := v.(*ssa.Function); return ok && f.Name() == "ProgramConverter" || strings.Contains(v.String(), "ProgramConverter") }, 4, nil)
+			okc = mentions(s.Common().Args[2], func(v ssa.Value) bool {
+				f, ok := v.(*ssa.Function)
+				return ok && f.Name() == "ProgramConverter" || strings.Contains(v.String(), "ProgramConverter")
+			}, 4, nil)
 		}
 		c.Require("sibling", fname(pv)+": same program converter as the chain's validation", okc, "ValidateTxs(…, chain.ProgramConverter)")
 	}
